@@ -622,6 +622,68 @@ class Effects:
         from .typesx import expr_type
         return expr_type(self.model, f, e)
 
+    def _uncopyable(self, e: ast.expr, f: FuncInfo):
+        """Name of the repository class of *e* if its instances hold a lock and the class does
+        not say how to copy them."""
+        from .typesx import expr_type
+        t = expr_type(self.model, f, e)
+        if t is None and isinstance(e, ast.Name):
+            # a loop variable over .items()/.values() of an annotated container
+            for x in A.walk_no_nested(f.node):
+                if isinstance(x, ast.For):
+                    names = [n.id for n in ast.walk(x.target) if isinstance(n, ast.Name)]
+                    if e.id in names:
+                        it = x.iter
+                        if isinstance(it, ast.Call) and isinstance(it.func, ast.Attribute) \
+                                and it.func.attr in ("items", "values"):
+                            from .typesx import _container_elem
+                            t = _container_elem(self.model, f, it.func.value, "value", 3)
+        if t is None or isinstance(t, str):
+            return None
+        for ci in self.model.mro(t):
+            if any(m in ci.methods for m in ("__deepcopy__", "__getstate__", "__reduce__", "__copy__")):
+                return None
+        for ci in self.model.mro(t):
+            init = ci.methods.get("__init__")
+            if init is None:
+                continue
+            for n in ast.walk(init.node):
+                if isinstance(n, ast.Call) and A.call_name(n) in (
+                        "threading.Lock", "threading.RLock", "Lock", "RLock", "threading.Condition",
+                        "threading.Event", "threading.Semaphore"):
+                    return t.name
+        return None
+
+    def _lacking_attrs(self, recv: ast.expr, n: ast.AST, f: FuncInfo) -> set[str]:
+        """Names N for which an enclosing test establishes `not hasattr(<recv>, "N")` at *n*
+        (the receiver's class then defines no attribute N: implementations in classes that do
+        are not candidates)."""
+        want = ast.unparse(recv)
+        par = A.parents(f.node)
+        out: set[str] = set()
+
+        def conj(t):
+            if isinstance(t, ast.BoolOp) and isinstance(t.op, ast.And):
+                for v in t.values:
+                    yield from conj(v)
+            else:
+                yield t
+        cur = n
+        while cur in par:
+            p_ = par[cur]
+            if isinstance(p_, (ast.If, ast.While)) and any(cur is b for b in p_.body):
+                for t in conj(p_.test):
+                    if isinstance(t, ast.UnaryOp) and isinstance(t.op, ast.Not) and isinstance(t.operand, ast.Call) \
+                            and A.call_name(t.operand) == "hasattr" and len(t.operand.args) == 2 \
+                            and ast.unparse(t.operand.args[0]) == want \
+                            and isinstance(t.operand.args[1], ast.Constant):
+                        out.add(t.operand.args[1].value)
+            cur = p_
+        return out
+
+    def _class_defines(self, ci, name: str) -> bool:
+        return any(name in c.class_assigns or name in getattr(c, "annotations", {}) for c in self.model.mro(ci))
+
     def _prop_load(self, n: ast.Attribute, f: FuncInfo) -> set[str]:
         cands = self.props_by_name.get(n.attr)
         if not cands:
@@ -629,6 +691,10 @@ class Effects:
         rc = self.recv_class(n.value, f)
         if isinstance(rc, str):
             return set()               # external object
+        lacking = self._lacking_attrs(n.value, n, f)
+        if lacking:
+            cands = [p for p in cands if p.cls is None
+                     or not any(self._class_defines(p.cls, a) for a in lacking)]
         out = set()
         for p in self._dispatch(cands, rc):
             r = self._callee(p)
@@ -740,6 +806,13 @@ class Effects:
             self._note(f, c, ["ANY"], f"user callback {name}")
             return {"ANY"}
         full = self._qual_external(fn, f)
+        if full in ("copy.deepcopy", "pickle.dumps") and c.args:
+            r = self._uncopyable(c.args[0], f)
+            if r:
+                self._note(f, c, ["TypeError"], f"{full}() of an object of class {r}, which holds a "
+                           f"lock (threading.Lock/RLock cannot be copied or pickled) and defines no "
+                           f"__deepcopy__ / __getstate__")
+                return {"TypeError"}
         if self.profile == "faults" and full in FAULT_FUNC_PRIMS:
             r = set(FAULT_FUNC_PRIMS[full])
             self._note(f, c, r, f"{full}(...)")
